@@ -6,6 +6,7 @@ INVARIANT Blocks
 INVARIANT RoundTrip
 INVARIANT Gate
 INVARIANT Kept
+INVARIANT ThumbKept
 INVARIANT LazyUnobservable
 INVARIANT Untouched
 VIEW View
@@ -16,10 +17,11 @@ CONSTANTS
   Layers = {"d1"}
   Minors = {2, 3, 4, 5}
   Fmts = {"RGBA8888"}
-  Lows = {"NONE", "RGB888"}
+  Lows = {"NONE", "IA88"}
   ResKinds = {"inline", "inline2", "data", "data0"}
   MaxRes = 2
   Access = FALSE
   Fills = {"l0"}
   History = FALSE
   MaxOps = 0
+  Thumbs = {"t16"}
